@@ -363,6 +363,7 @@ def explicit_cases():
         base,
         dict(base, N=0),
         dict(base, mr=[0, 0]),
+        dict(base, mr=[-2, 0]), dict(base, mr=[-1, 0.25], kind="raw_lazy", H=None), dict(base, mr=[-4, 0], kind="stdin"),
         dict(base, kind="wav_lazy", mr=[13, 0.25]),
         dict(base, kind="raw_lazy", H=None, N=3),
         dict(base, kind="buffer", H=5, mr=[40, 0]),
@@ -413,7 +414,9 @@ def strategy(draw, maxN):
             cfg["fh"] = draw(st.sampled_from([0, 0.25, 0.5, 0.75]))
             if cfg["H"] == B and cfg["fh"] > cfg["fb"]:
                 cfg["fh"] = draw(st.sampled_from([0, cfg["fb"]]))
-    cfg["mr"] = draw(st.one_of(st.none(), st.tuples(st.integers(0, N + 10), st.sampled_from([0, 0.25, 0.5, 0.75])).map(list)))
+    cfg["mr"] = draw(st.one_of(st.none(), st.tuples(st.integers(0, N + 10), st.sampled_from([0, 0.25, 0.5, 0.75])).map(list),
+                               st.tuples(st.integers(0, N + 10), st.sampled_from([0, 0.25, 0.5, 0.75])).map(list),
+                               st.tuples(st.integers(-6, -1), st.sampled_from([0, 0.25])).map(list)))  # negative: nothing to read
     if cfg["kind"] == "buffer" and draw(st.booleans()):
         cfg["prepos"] = draw(st.integers(1, 9))
     cfg["rawname"] = draw(st.sampled_from([".raw", ".raw", ".pcm", "", ".dat"]))
